@@ -1,0 +1,52 @@
+// Copyright JAMF Software, LLC
+
+//go:build verif
+
+package replication
+
+// VerifWorker drives a single replication worker step by step for the verification harness
+// (compiled only with the "verif" build tag). The worker is built by the real factory, its
+// goroutines are never started: the harness owns the schedule.
+type VerifWorker struct {
+	w *worker
+}
+
+// VerifWorker creates a worker for the table the same way reconcileWorkers does.
+func (m *Manager) VerifWorker(table string) *VerifWorker {
+	return &VerifWorker{w: m.factory.create(table)}
+}
+
+// Poll runs one iteration of the replication routine body: read the recorded leader index,
+// replicate from the leader log and recover from a snapshot when the leader asks for it.
+func (v *VerifWorker) Poll() (string, error) {
+	idx, id, err := v.w.tableState()
+	if err != nil {
+		return "state-error", err
+	}
+	result, err := v.w.do(idx, v.w.engine.GetNoOPSession(id))
+	switch result {
+	case resultLeaderAhead:
+		if rerr := v.w.recover(); rerr != nil {
+			return "recover-error", rerr
+		}
+		return "recovered", nil
+	case resultLeaderBehind:
+		return "leader-behind", err
+	case resultFollowerLagging:
+		return "lagging", err
+	case resultFollowerTailing:
+		return "tailing", err
+	case resultTableNotExists:
+		return "table-not-exists", err
+	case resultBackoff:
+		return "backoff", err
+	default:
+		return "unknown", err
+	}
+}
+
+// Recover streams a snapshot from the leader and loads it into the table.
+func (v *VerifWorker) Recover() error { return v.w.recover() }
+
+// VerifReconcileTables runs one round of table set reconciliation against the leader.
+func (m *Manager) VerifReconcileTables() error { return m.reconcileTables() }
